@@ -19,6 +19,7 @@ import (
 	"github.com/go-git/go-git/v6/plumbing/format/gitignore"
 	"github.com/go-git/go-git/v6/plumbing/format/index"
 	"github.com/go-git/go-git/v6/plumbing/object"
+	"github.com/go-git/go-git/v6/plumbing/storer"
 	"github.com/go-git/go-git/v6/utils/convert"
 	"github.com/go-git/go-git/v6/utils/ioutil"
 	"github.com/go-git/go-git/v6/utils/merkletrie"
@@ -196,6 +197,15 @@ func (w *Worktree) ignoreScope() *gitignore.Scope {
 	patterns, err := gitignore.RootPatterns(w.filesystem)
 	if err != nil {
 		patterns = nil
+	}
+
+	// RootPatterns cannot see $GIT_DIR/info/exclude here: w.filesystem refuses
+	// every path below .git and the error is dropped. Read it through the
+	// repository storage instead; it has the lowest priority.
+	if fss, ok := w.r.Storer.(storer.FilesystemStorer); ok {
+		if exclude, err := gitignore.ExcludePatterns(fss.Filesystem()); err == nil {
+			patterns = append(exclude, patterns...)
+		}
 	}
 
 	patterns = append(patterns, w.Excludes...)
